@@ -634,5 +634,48 @@ Proof.
   induction l as [|x l IH]; intros [|k] Hk; simpl in Hk; try lia.
   - cbn [length seq map nth Nat.eqb]. rewrite map_seq_shift. cbn [nth Nat.eqb]. rewrite map_seq_nth. reflexivity.
   - cbn [length seq map nth Nat.eqb]. rewrite map_seq_shift. cbn [nth Nat.eqb]. rewrite set_nth_S.
-    f_equal. now apply IH.
+    f_equal. apply IH. lia.
+Qed.
+
+Lemma set_neg_norm l a v k : - zlen l <= a < zlen l -> np_axis a (zlen l) = Some k ->
+  set_neg l a v = set_nth k v l /\ at_neg l a = nth k l 0 /\ (k < length l)%nat.
+Proof.
+  intros Ha Hk. destruct (Z.ltb_spec a 0).
+  - rewrite np_axis_neg in Hk by lia. injection Hk as <-. rewrite set_neg_neg, at_neg_neg by lia.
+    repeat split. unfold zlen in *. lia.
+  - rewrite np_axis_nonneg in Hk by lia. injection Hk as <-. rewrite set_neg_nonneg, at_neg_nonneg by lia.
+    repeat split. unfold zlen in *. lia.
+Qed.
+
+(* sliding window along one axis: shape = source with that extent reduced by w-1, plus a window axis of extent w;
+   element (j, t) reads the source at j with t added to the coordinate of the axis *)
+Lemma sliding_window_axis_spec s w a j t : pos s -> - zlen s <= a < zlen s ->
+  exists k, np_axis a (zlen s) = Some k
+  /\ shape_sliding_window_axes s [w] [a] = Val (set_nth k (nth k s 0 - (w - 1)) s ++ [w])
+  /\ np_sw_shape s [w] [a] = set_nth k (nth k s 0 - (w - 1)) s ++ [w]
+  /\ (inb (j ++ [t]) (set_nth k (nth k s 0 - (w - 1)) s ++ [w]) -> length j = length s ->
+      sliding_window_axes_index (length s) (j ++ [t]) [a] = np_sw_index (length s) (j ++ [t]) [a]
+      /\ inb (sliding_window_axes_index (length s) (j ++ [t]) [a]) s).
+Proof.
+  intros Hp Ha. destruct (normalize_axis_np a (zlen s) Ha) as [k [Hk [Hn Hlt]]]. exists k.
+  assert (Hkl : (k < length s)%nat) by (unfold zlen in Hlt; lia).
+  split; [assumption|]. split; [|split].
+  - unfold shape_sliding_window_axes. cbn [normalize_axes]. rewrite Hn. cbn [sw_shape_loop].
+    rewrite set_neg_nonneg, at_neg_nonneg by lia. now rewrite Nat2Z.id.
+  - unfold np_sw_shape. f_equal. cbn [map np_sw_sum]. rewrite Hk.
+    rewrite <- (map_seq_set_nth (fun x => x - (w - 1)) s k Hkl). apply map_ext. intros u.
+    destruct (Nat.eqb k u); lia.
+  - intros Hi Hl. unfold sliding_window_axes_index, np_sw_index.
+    rewrite firstn_app, skipn_app, <- Hl, firstn_all, skipn_all, Nat.sub_diag. cbn [firstn skipn app]. rewrite app_nil_r.
+    cbn [sw_index_loop np_sw_sum]. rewrite Hl, Nat2Z.id. fold (zlen s). rewrite Hk.
+    assert (Hzl : zlen j = zlen s) by (unfold zlen; now rewrite Hl).
+    destruct (set_neg_norm j a (at_neg j a + t) k ltac:(lia) ltac:(now rewrite Hzl)) as [E1 [E2 _]].
+    rewrite E1, E2.
+    assert (Hsplit : inb j (set_nth k (nth k s 0 - (w - 1)) s) /\ 0 <= t < w).
+    { apply inb_app_inv' in Hi; [|rewrite set_nth_length; lia]. destruct Hi as [H1 H2]. split; [assumption|].
+      inversion H2; subst. assumption. }
+    destruct Hsplit as [Hj Ht]. split.
+    + rewrite <- Hl. rewrite <- (map_seq_set_nth (fun x => x + t) j k ltac:(lia)). apply map_ext. intros u.
+      destruct (Nat.eqb k u); lia.
+    + apply (inb_set_nth_change j s k _ _ Hkl Hj). pose proof (inb_set_nth_bound _ _ _ _ Hkl Hj). lia.
 Qed.
